@@ -180,6 +180,24 @@ Theorem C16_reports_print_that_line :
                                     (bad_prefix sec_docstring ++ d)]).
 Proof. exact reports_print. Qed.
 
+(* the file named by a report is the object's own source path, whatever module it currently belongs to *)
+Theorem C16_description_is_own_file :
+  forall (p module_fullname : text), description (Some p) module_fullname = p.
+Proof. reflexivity. Qed.
+
+(* A markup error in an INHERITED docstring is reported against the object that defines the docstring (its
+   file, its docstring line + the error's line), and only once however many overrides inherit it. *)
+Theorem C16_inherited_docstring_reported_at_source :
+  forall v st pe o1 o2 source d z,
+    -1 <= v <= 100 -> o_docstring_lineno source <> 0 -> 0 <= z ->
+    existsb (text_eqb (o_fullname source)) (pe_lookup sec_docstring pe) = false ->
+    let r1 := parse_docstring_report v st pe o1 source [{| pe_descr := d; pe_stored := Some z |}] sec_docstring in
+    let r2 := parse_docstring_report v (fst r1) (snd r1) o2 source [{| pe_descr := d; pe_stored := Some z |}] sec_docstring in
+    printed (fst r1) = printed st ++ [report_text (o_description source) (Num (o_docstring_lineno source + z))
+                                                 (bad_prefix sec_docstring ++ d)] /\
+    r2 = r1.
+Proof. exact inherited_reported_at_source. Qed.
+
 Example C16_offset_example :
   report_text [109]%N (report_line sec_docstring 7 3 (perr_offset {| pe_descr := []; pe_stored := Some 2 |}) false) [120]%N
   = [109; 58; 57; 58; 32; 120]%N.     (* "m:9: x" *)
